@@ -7,7 +7,7 @@ VERIF = os.path.dirname(os.path.dirname(os.path.abspath(__file__)))
 REPO = os.environ.get('VERIF_REPO', '/repo')
 CACHE = os.path.join(VERIF, '.cache')
 COQ = os.path.join(VERIF, 'coq')
-EVID = os.path.join(VERIF, 'evidence')
+EVID = os.environ.get('VERIF_EVID') or os.path.join(VERIF, 'evidence')
 REPLAY = os.path.join(EVID, 'replay')
 FEATURES = 'serde,data,macros'
 GUARD = 'iref_verif'
@@ -95,6 +95,8 @@ def build_tree(need_release=False):
         try:
             src = os.path.join(tmp, 'repo')
             sh(['rsync', '-a', '--exclude', '/target', '--exclude', '/.git', REPO + '/', src + '/'])
+            if not os.path.exists(os.path.join(src, 'Cargo.lock')) and os.path.exists('/repo/Cargo.lock'):
+                shutil.copy('/repo/Cargo.lock', os.path.join(src, 'Cargo.lock'))   # untracked file: absent from a git worktree
             hdir = os.path.join(tmp, 'harness')
             shutil.copytree(os.path.join(VERIF, 'harness'), hdir)
             with open(os.path.join(hdir, 'Cargo.toml.in')) as f:
